@@ -958,6 +958,29 @@ def gen_requests(rng, cfg, nreq):
                 glob = len(geoms) + 1
                 geoms[str(glob)] = gen_geom(rng, kind=rng.choice(['huge', 'hugenotch']), huge_T=2 ** 18)
             req['cb'] = {'kind': 'partial', 'layers': lays, 'limited_to': glob, 'geoms': geoms}
+        if req['type'] == 'fi' or (req['type'] == 'tile' and req['service'] == 'wmts_fi'):
+            # query positions outside of the image / tile (X, Y, I, J are not range checked and are forwarded):
+            # the coordinate that the limits are tested with lies beyond the requested bbox (checksum, not rng)
+            import zlib
+            k = zlib.crc32(json.dumps([req.get('bbox'), req.get('tile'), req['pos']]).encode())
+            if k % 3 == 0:
+                pw_, ph_ = (req['size'] if req['type'] == 'fi' else (64, 64))
+                off = [-2, -1, 1, 2][(k // 3) % 4]
+                which = (k // 12) % 3
+                pos = list(req['pos'])
+                if which in (0, 2):
+                    pos[0] += off * pw_
+                if which in (1, 2):
+                    pos[1] += off * ph_
+                ok_ = True
+                if req['type'] == 'fi':
+                    bb = req['bbox']
+                    X_ = bb[0] + pos[0] / float(pw_) * (bb[2] - bb[0])
+                    Y_ = bb[3] - pos[1] / float(ph_) * (bb[3] - bb[1])
+                    wb_ = WORLD[req['srs']]
+                    ok_ = wb_[0] < X_ < wb_[2] and wb_[1] < Y_ < wb_[3]
+                if ok_:
+                    req['pos'] = pos
         if req['type'] == 'tile' and req['cb'] is not None:
             # The tile services intersect the layer's and the global geometry in the SRS of the first one, so one of
             # them may be reprojected there and back (vertex by vertex).  That is exact for axis-parallel edges only:
@@ -1701,6 +1724,14 @@ def handle_tile(ctx, cfg, req, cb, resp, status, rec, up_map, up_fi, names, exte
     sets_lit = lambda sets: llit(sets, llit)  # noqa
     if svc == 'wmts_fi':
         x, y = req['pos']
+        if extents and extents[0] is not None and not (0 <= x <= 64 and 0 <= y <= 64):
+            qs_, qb_ = extents[0]
+            X_ = qb_[0] + x / 64.0 * (qb_[2] - qb_[0])
+            Y_ = qb_[3] - y / 64.0 * (qb_[3] - qb_[1])
+            wb_ = WORLD[qs_.replace('900913', '3857')]
+            if not (wb_[0] < X_ < wb_[2] and wb_[1] < Y_ < wb_[3]):
+                ctx.count('app.wmts_fi.skipped-position-outside-the-world')
+                return
         cls = dict((int(g), shape_class(spec['shape'], x / 64.0, 1 - y / 64.0, 64, 64, 0.5)) for g, spec in geoms.items())
         if any(cls[g] == 'near' for g in lim_ids):
             return
